@@ -225,7 +225,7 @@ func short(h string) string {
 
 // oneFault executes history with a single fault and checks recovery. baseline is the
 // uninterrupted run's final table.
-func (e *env) oneFault(caseID string, dir string, hist gen.History, baseline snap.Headers, k int, kind string, real bool) {
+func (e *env) oneFault(caseID string, dir string, hist gen.History, baseline snap.Headers, k int, kind string, real bool, cell string) {
 	r := e.r
 	f := &faultCtl{K: k, Kind: kind}
 	detail := map[string]any{"history_hex": hist.Hex(), "fault_write_index": k, "fault_kind": kind, "real_sigkill": real}
@@ -347,11 +347,13 @@ func (e *env) oneFault(caseID string, dir string, hist gen.History, baseline sna
 		}
 	}
 	r.Count("fault_runs_"+kind, 1)
-	r.Distinct(fmt.Sprintf("%s|%s", where, caseID))
+	// distinct = structural cell of the fault: kind x position of the write inside its Add (1st/2nd/3rd of a
+	// 1- or 3-write submission) x real/in-process kill x whether the interrupted submission was a duplicate-free reorg
+	r.Distinct(fmt.Sprintf("%s|%s|real=%v", where, cell, real))
 }
 
 func body(r *ev.Run) {
-	r.Rule("per history (constructed reorganisations of depth 1..D by equal-work overtaking, heavy sibling, light-then-heavy; branch switches, extensions, orphans, duplicates): the uninterrupted run counts W write calls at the repository interface (AddHeaderToDatabase/UpdateState, each one SQL transaction); then W x {kill-before, kill-after, error-instead} runs, one fault each, followed by restart (database.Init on the same file), invariant checks, and two full redeliveries compared row-for-row with the uninterrupted run. A seeded sample is repeated with a real SIGKILL of a child process. evaluations = fault runs; distinct = distinct (history, write index, kind); non-trivial = every fault run (each has a fault).")
+	r.Rule("per history (constructed reorganisations of depth 1..D by equal-work overtaking, heavy sibling, light-then-heavy; branch switches, extensions, orphans, duplicates): the uninterrupted run counts W write calls at the repository interface (AddHeaderToDatabase/UpdateState, each one SQL transaction); then W x {kill-before, kill-after, error-instead} runs, one fault each, followed by restart (database.Init on the same file), invariant checks, and two full redeliveries compared row-for-row with the uninterrupted run. A seeded sample is repeated with a real SIGKILL of a child process. evaluations = fault runs; distinct = distinct structural cells (fault kind x operation and ordinal inside its submission x writes of that submission x first/middle/last submission x history length class x real-or-in-process kill); non-trivial = all (each has a fault).")
 	r.Assume("a write boundary is a call of repository.Headers.AddHeaderToDatabase/UpdateState (each is one committed SQL transaction)", "after an injected write error ingestion stops and the service is restarted (weakest reading)", "SQLite only")
 	r.Require("faults_inside_reorg", 10)
 	mb.ForbiddenHeaders()
@@ -411,13 +413,25 @@ func body(r *ev.Run) {
 			r.Count("write_boundaries", int64(W))
 			r.Count("faults_inside_reorg", int64(inside*3))
 			before := r.NumViolations()
+			cells := make([]string, 0, W)
+			for ai, n := range perAdd {
+				for j := 1; j <= n; j++ {
+					pos := "middle"
+					if ai == 0 {
+						pos = "first-add"
+					} else if ai == len(perAdd)-1 {
+						pos = "last-add"
+					}
+					cells = append(cells, fmt.Sprintf("write%d-of-%d|%s|history-len-class=%d", j, n, pos, len(hist.Hdrs)/8))
+				}
+			}
 			for k := 0; k < W; k++ {
 				for ki, kind := range kinds {
 					sub := fmt.Sprintf("%s/w%d/%s", caseID, k, kind)
-					e.oneFault(sub, dir, hist, baseline, k, kind, false)
+					e.oneFault(sub, dir, hist, baseline, k, kind, false, cells[k])
 					r.Case("", false)
 					if kind != errInstead && (k*3+ki+i)%realSample == 0 {
-						e.oneFault(sub+"/sigkill", dir, hist, baseline, k, kind, true)
+						e.oneFault(sub+"/sigkill", dir, hist, baseline, k, kind, true, cells[k])
 						r.Case("", false)
 					}
 				}
